@@ -80,6 +80,41 @@ func callOrder(fd *ast.FuncDecl, want map[string]bool) []string {
 	return out
 }
 
+// cloneVisitor records every strings.Clone call together with the innermost enclosing if-condition
+type cloneVisitor struct {
+	f     *fg.File
+	guard string
+	fn    string
+	out   *[][3]string
+}
+
+func (v cloneVisitor) Visit(n ast.Node) ast.Visitor {
+	switch x := n.(type) {
+	case *ast.IfStmt:
+		if x.Init != nil {
+			ast.Walk(v, x.Init)
+		}
+		ast.Walk(v, x.Cond)
+		cond := strings.ReplaceAll(v.f.Text(x.Cond), " ", "")
+		tv := v
+		tv.guard = cond + ":then"
+		ast.Walk(tv, x.Body)
+		if x.Else != nil {
+			ev := v
+			ev.guard = cond + ":else"
+			ast.Walk(ev, x.Else)
+		}
+		return nil
+	case *ast.CallExpr:
+		if se, ok := x.Fun.(*ast.SelectorExpr); ok && se.Sel.Name == "Clone" {
+			if id, ok := se.X.(*ast.Ident); ok && id.Name == "strings" && len(x.Args) == 1 {
+				*v.out = append(*v.out, [3]string{v.fn, strings.ReplaceAll(v.f.Text(x.Args[0]), " ", ""), v.guard})
+			}
+		}
+	}
+	return v
+}
+
 func c32(repo string, out *fg.Out) error {
 	apiFiles, err := fg.ParseDir(repo, "internal/api")
 	if err != nil {
@@ -383,6 +418,22 @@ func c32(repo string, out *fg.Out) error {
 		return fmt.Errorf("writeColumnarInternal: expected one AppendRawWithMeta (raw payload) and one Append(columnarToWALRecords(..)) call")
 	}
 
+	// ---- (7) request-derived strings retained past the handler: every strings.Clone and its guard
+	var clones [][3]string
+	for _, hn := range [][2]string{{"LineProtocolHandler", "handleWrite"}, {"MsgPackHandler", "writeMsgPack"}, {"TLEHandler", "handleWrite"},
+		{"ImportHandler", "handleLineProtocolImport"}, {"ImportHandler", "handleTLEImport"}, {"ImportHandler", "importPreamble"}} {
+		cf2, cfd := fg.FindFunc(apiFiles, hn[0], hn[1])
+		if cfd == nil {
+			return fmt.Errorf("%s.%s not found", hn[0], hn[1])
+		}
+		before := len(clones)
+		ast.Walk(cloneVisitor{f: cf2, fn: hn[0] + "." + hn[1], out: &clones}, cfd.Body)
+		if len(clones) == before {
+			return fmt.Errorf("%s.%s: no strings.Clone of the request-derived database name", hn[0], hn[1])
+		}
+	}
+	out.JSON["clone_sites"] = clones
+
 	out.JSON["extract_cases"] = cases
 	out.JSON["extract_recurses"] = recurses
 	out.JSON["msgpack_order"] = mpOrder
@@ -419,6 +470,11 @@ func c32(repo string, out *fg.Out) error {
 	fmt.Fprintf(L, "/-- some failure return of importPreamble is a bare `c.Status(..).JSON(..)` (nil after a successful write) -/\ndef importPreambleSwallowsErrors : Bool := %v\n", swallow)
 	fmt.Fprintf(L, "/-- every failure return of importPreamble is preambleReject(..), which returns the non-nil sentinel, and both callers return on `errResp != nil` -/\ndef importPreambleFailuresStop : Bool := %v\n", stops)
 	fmt.Fprintf(L, "/-- columnarToWALRecords / typedBatchToWALRecords assign row[\"_database\"], row[\"_measurement\"] after copying the columns -/\ndef walRoutingKeysLast : Bool := %v\n", routingLast)
+	var cl2 []string
+	for _, c := range clones {
+		cl2 = append(cl2, fmt.Sprintf("(%s, %s, %s)", fg.LeanStr(c[0]), fg.LeanStr(c[1]), fg.LeanStr(c[2])))
+	}
+	fmt.Fprintf(L, "/-- (handler, argument, innermost enclosing if-condition:branch or \"\") of every strings.Clone in the write handlers -/\ndef cloneSites : List (String × String × String) := [\n  %s\n]\n", strings.Join(cl2, ",\n  "))
 	fmt.Fprintln(L, "end Arc.Generated.C32")
 	return nil
 }
